@@ -2,6 +2,10 @@
 (* Trace judge for C05.  Input: ndjson (TRACE_FILE); every line is self-contained.           *)
 (*  hdr : [t, i, op, target, pre: <<[n, v]>>, c: call (see Response!ApplyMut), exc,           *)
 (*         post: <<[n, v, s]>>]     one mutator call on a real Headers object                 *)
+(*  hdrx: like hdr for entry points of the Response API that store a header value (location,  *)
+(*        set_cookie, Response(headers=..) ...): c.m = "api", post = the list handed to the     *)
+(*        server; only StoredClean / native are judged                                         *)
+(*  s = isinstance(value, str); values of other types are recorded by their str() text         *)
 (*  rfin: like fin, recorded from the repository's own tests (verdict clauses only, no drift)  *)
 (*  fin : [t, i, op, inp: (see Response!Finalize; plus envstd, mhdrs), out: [exc, status,     *)
 (*         headers: <<[n, v, s]>>, body, allbytes, cb, ic, raw]]                              *)
@@ -66,7 +70,7 @@ ExcClause(ln) ==
      ELSE "ok"
 ExcDrift(ln) == IF ln.out.exc = "" /\ ~IsPrefixOf(DecOf(ln.code), ln.out.status) THEN "exc-status" ELSE "ok"
 
-Verdict(ln) == CASE ln.op = "hdr" -> HdrClause(ln)
+Verdict(ln) == CASE ln.op \in {"hdr", "hdrx"} -> HdrClause(ln)   \* hdrx: an entry point of the Response API (no drift)
                  [] ln.op = "fin" -> FinClause(ln.inp, ln.out, Native(ln.out.headers))
                  [] ln.op = "rfin" -> FinClause(ln.inp, ln.out, Native(ln.out.headers))   \* recorded from the repository's tests
                  [] ln.op = "shape" -> ShapeClause(ln.method, ln.code, ln.ncb, ln.out, ln.its, Native(ln.out.headers))
